@@ -23,8 +23,9 @@ def c17_response_step(ctx, v):
          key afterwards is response.public_key;
       B  Ok is returned  =>  the challenge is consumed (challenge_for_peer == None afterwards), so
          the same response cannot be accepted twice;
-      C  V false, no outstanding challenge, unset or incompatible version  =>  Err and the peer is
-         not left Connected by this call."""
+      C  V false or no outstanding challenge  =>  the peer is not newly Connected by this call;
+      D  Ok / newly Connected  =>  the responder's core version is set and equals this node's in
+         major and minor (this node's wallet version symbolic)."""
     ex = ctx.executor(loop_bound=3, inline="auto", max_paths=4000, no_inline=[r"::serialize$", r"get_my_services$"])
     ch, ch_val = _opt(ex, "challenge_for_peer", "[u8; 32]")
     pk, pk_val = _opt(ex, "peer.public_key", "[u8; 33]")
@@ -34,7 +35,10 @@ def c17_response_step(ctx, v):
     r_sig = ex.fresh_value("[u8; 64]", "response.signature")
     r_pk = ex.fresh_value("[u8; 33]", "response.public_key")
     r_ch = ex.fresh_value("[u8; 32]", "response.challenge")
-    resp = ctx.mk_struct(ex, "HandshakeResponse", "response", signature=r_sig, public_key=r_pk, challenge=r_ch)
+    ver = lambda nm: S.Agg("struct", "Version", [ex.fresh_value("u8", nm + ".major"), ex.fresh_value("u8", nm + ".minor"), ex.fresh_value("u16", nm + ".patch")])
+    r_ver, w_ver = ver("response.core_version"), ver("wallet.core_version")
+    resp = ctx.mk_struct(ex, "HandshakeResponse", "response", signature=r_sig, public_key=r_pk, challenge=r_ch, core_version=r_ver)
+    wallet = ctx.mk_struct(ex, "Wallet", "wallet", core_version=w_ver)
     V = ex.fresh_value("bool", "V")
     verify_calls = []
 
@@ -51,7 +55,7 @@ def c17_response_step(ctx, v):
     st = S.State()
     st.pc.extend(pre)
     body, co = L.coroutine(ctx, ex, r"peer::<impl at [^>]*>::handle_handshake_response",
-                           [S.Ref(S.Cell(peer), (), True), resp, S.Ref(S.Cell(S.Opaque("io", "dyn InterfaceIO"))), S.Opaque("wallet_lock", "Arc<RwLock<Wallet>>"),
+                           [S.Ref(S.Cell(peer), (), True), resp, S.Ref(S.Cell(S.Opaque("io", "dyn InterfaceIO"))), S.Ref(S.Cell(wallet)),
                             S.Opaque("configs_lock", "Arc<RwLock<dyn Configuration>>"), ex.fresh_value("u64", "current_time")])
     outs = ex.run(body, [S.Ref(S.Cell(co), (), True), S.Opaque("cx", "Context")], st)
     v.paths += len(outs)
@@ -96,12 +100,17 @@ def c17_response_step(ctx, v):
         ppk = as_enum(ex, fi("public_key"), "Option")
         key_is_responder = z3.And(enum_is(ex, ppk, "Some"), value_eq(ex, payload(ex, ppk, "Some"), r_pk)) if ppk.variant != "None" else z3.BoolVal(False)
         newly = z3.And(connected, z3.Not(was_connected)) if connected is not None else z3.BoolVal(False)
+        w_set = z3.Not(z3.And(w_ver.fields[0].bv == 0, w_ver.fields[1].bv == 0, w_ver.fields[2].bv == 0))
+        r_set = z3.Not(z3.And(r_ver.fields[0].bv == 0, r_ver.fields[1].bv == 0, r_ver.fields[2].bv == 0))
+        compatible = z3.And(w_set, r_set, w_ver.fields[0].bv == r_ver.fields[0].bv, w_ver.fields[1].bv == r_ver.fields[1].bv)
         checks = [
             ("A: the peer is newly marked Connected without a valid signature over the outstanding challenge", z3.And(newly, z3.Not(authenticated))),
             ("A: Ok is returned without a valid signature over the outstanding challenge", z3.And(is_ok, z3.Not(authenticated))),
             ("A: Ok is returned but the peer's key is not the responder's key", z3.And(is_ok, z3.Not(key_is_responder))),
             ("B: Ok is returned but the challenge is still outstanding afterwards (the same response would be accepted again)", z3.And(is_ok, enum_is(ex, pch, "Some"))),
             ("C: a rejected response (bad signature / no challenge) leaves the peer newly Connected", z3.And(z3.Not(authenticated), newly)),
+            ("D: Ok is returned / the peer is newly Connected although the responder's core version is unset or differs from this node's in major or minor",
+             z3.And(z3.Or(is_ok, newly), z3.Not(compatible))),
         ]
         for what, bad in checks:
             r, m = ex.model_for(o.pc, bad)
